@@ -54,7 +54,8 @@ def gen_case(seed, tier, prop):
                 prog.append(["send_closed"])
             else:
                 prog.append(["close"])
-        prog.append(["close"] if rng.random() < (0.85 if prop == "C13" else 0.7) else ["sleep", 0])
+        r = rng.random()
+        prog.append(["close"] if r < 0.55 else ["aclose", rng.random() < 0.5] if r < (0.9 if prop == "C13" else 0.75) else ["sleep", 0])
         if rng.random() < 0.3:
             prog.append(["send", sid()])          # use after close -> ClosedResourceError
         if rng.random() < 0.2:
@@ -77,15 +78,22 @@ def gen_case(seed, tier, prop):
                 prog.append(["swap"])
             elif r < 0.96 and nsid[0]:
                 prog.append(["cancel", rng.randrange(nsid[0])])
-            else:
+            elif r < 0.98:
                 prog.append(["close"])
-        if rng.random() < 0.5:
+            else:
+                prog.append(["aclose", rng.random() < 0.5])
+        r = rng.random()
+        if r < 0.5:
             prog.append(["drain", sid()])
+        elif r < 0.7:
+            prog.append(["aclose", rng.random() < 0.5])
         receivers.append(prog)
     ext = []
     for _ in range(rng.randint(0, 6)):
         t = rng.choice([0, 0.125, 0.125, 0.25, 0.25, 0.375, 0.5, 0.75])
-        if nsid[0]:
+        if rng.random() < 0.2:
+            ext.append([t, "close", "S%d" % rng.randrange(ns)])      # closed by somebody else, even mid-send
+        elif nsid[0]:
             ext.append([t, "cancel", rng.randrange(nsid[0])])
     ext.sort(key=lambda e: e[0])
     loop = LoopConfig(eager=rng.random() < 0.3, cap=8000, p_late=rng.choice([0, 0, 0.2]),
@@ -179,7 +187,7 @@ class MemRun:
             self.sc_op.pop(op["sid"], None)
         kind = op["kind"]
         if outcome == "closed":
-            if not op["closed_at_begin"]:
+            if not op["closed_at_begin"] and op["label"] in (self.open_s if kind == "send" else self.open_r):
                 self.v("C13.closed_error", f"{kind} on open handle {op['label']} raised ClosedResourceError")
             else:
                 self.probes["closed_error_on_closed_handle"] += 1
@@ -241,7 +249,7 @@ class MemRun:
     # -- external / sibling actions --------------------------------------------------------------
     def do_cancel(self, by, sid):
         sc = self.scopes.get(sid)
-        if sc is None or sid in self.cancelled:
+        if sc is None or sid in self.cancelled or getattr(self, "finished", False):
             return
         self.cancelled.add(sid)
         op = self.sc_op.get(sid)
@@ -270,7 +278,10 @@ class MemRun:
         self.busy = set()
         self.ntasks = len(case["senders"]) + len(case["receivers"])
         for t, what, arg in case["ext"]:
-            loop.call_external_at(t, self.do_cancel, "ext", arg)
+            if what == "cancel":
+                loop.call_external_at(t, self.do_cancel, "ext", arg)
+            else:
+                loop.call_external_at(t, self.ext_close, arg)
         self.jh = loop.call_at(6.0, self.janitor)
         self.observe("start")
         async with create_task_group() as tg:
@@ -279,6 +290,7 @@ class MemRun:
             for j, prog in enumerate(case["receivers"]):
                 tg.start_soon(self.receiver, "R%d" % j, prog, name="R%d" % j)
         self.jh.cancel()
+        self.finished = True
         self.final_checks()
 
     def janitor(self):
@@ -293,6 +305,47 @@ class MemRun:
             if lab not in self.busy:
                 self.close_handle(lab, "janitor")
         self.jh = self.sim.loop.call_at(self.sim.loop.time() + 1.0, self.janitor)
+
+    def ext_close(self, label):
+        if label in self.open_s and not getattr(self, "finished", False):
+            pend = [o for o in self.pending.values() if o["kind"] == "send" and o["label"] == label]
+            if pend:
+                self.faults["close_handle_with_send_in_flight"] += 1
+                self.nontrivial = True
+            self.close_handle(label, "ext")
+
+    async def aclose_handle(self, label, cancelled):
+        """aclose() - also from a task whose scope is already cancelled: an async resource must be closed
+        by aclose() even then."""
+        if label not in (self.open_s if label[0] == "S" else self.open_r):
+            return
+        h = (self.shandles if label[0] == "S" else self.rhandles)[label]
+        # model: the clone counts as closed from here on
+        self.mark_closed(label, label)
+        with CancelScope() as sc:
+            if cancelled:
+                sc.cancel()
+                self.faults["aclose_in_cancelled_scope"] += 1
+            await h.aclose()
+        self.observe("after aclose")
+
+    def mark_closed(self, label, by):
+        lp = self.sim.loop
+        side = self.open_s if label[0] == "S" else self.open_r
+        side.discard(label)
+        self.h.rec("close", by, label)
+        st = self.s0.statistics()
+        if not side:
+            if label[0] == "S":
+                self.last_s_close = (self.h.seq, lp.iterations)
+                if st.tasks_waiting_receive:
+                    self.faults["close_last_sender_with_blocked_receivers"] += 1
+                    self.nontrivial = True
+            else:
+                self.last_r_close = (self.h.seq, lp.iterations)
+                if st.tasks_waiting_send:
+                    self.faults["close_last_receiver_with_blocked_senders"] += 1
+                    self.nontrivial = True
 
     def close_handle(self, label, by):
         lp = self.sim.loop
@@ -337,6 +390,8 @@ class MemRun:
                     self.do_cancel(label, st[1])
                 elif op == "close":
                     self.close_handle(label, label)
+                elif op == "aclose":
+                    await self.aclose_handle(label, st[1])
                 elif op == "swap":
                     if label in self.open_s:
                         new = self.shandles[label].clone()
@@ -427,6 +482,8 @@ class MemRun:
                     self.do_cancel(label, st[1])
                 elif op == "close":
                     self.close_handle(label, label)
+                elif op == "aclose":
+                    await self.aclose_handle(label, st[1])
                 elif op == "swap":
                     if label in self.open_r:
                         new = self.rhandles[label].clone()
@@ -596,12 +653,14 @@ class MemCheck:
     }
     assumptions = [
         "asyncio backend only; uvloop not simulated",
-        "a handle is only closed / swapped by its owner task between operations (closing a handle another task is blocked on "
-        "is outside the statement); native Task.cancel() of a receiver after hand-over is not generated",
+        "receive handles are only closed / swapped by their owner task between operations; send handles are additionally closed "
+        "by external callbacks while a send() on them may be blocked (its item is then a pending item that must still be "
+        "delivered); native Task.cancel() of a receiver after hand-over is not generated",
+        "aclose() counts as closing the clone even when the calling task's scope is already cancelled",
         "FIFO service is judged for blocked parties that never had a cancellation pending",
         "wake-up after closing the last peer clone within %d loop cycles" % WAKE_LAT,
     ]
-    fault_kinds = ["cancel_blocked_send", "cancel_blocked_recv", "close_last_sender_with_blocked_receivers",
+    fault_kinds = ["close_handle_with_send_in_flight", "aclose_in_cancelled_scope", "cancel_blocked_send", "cancel_blocked_recv", "close_last_sender_with_blocked_receivers",
                    "close_last_receiver_with_blocked_senders", "timer_tie", "late_wakeup", "stall", "external_cb"]
 
     def __init__(self, prop):
